@@ -70,7 +70,7 @@ func gParse(c *Ctx, mode int, tag string) {
 	}
 	specs := gCorpus(c, mode)
 	variants := GoVariants
-	g, err := c.Generate(y, specs, variants, nil)
+	g, err := c.Generate(y, specs, append(append([]string{}, variants...), "ts"), nil)
 	if err != nil {
 		c.Inconclusive("%v", err)
 		return
@@ -81,7 +81,7 @@ func gParse(c *Ctx, mode int, tag string) {
 	}
 	c.Harnesses = append(c.Harnesses, "harness/gen/ref.go.txt:VerifParse (emitted next to each generated parser)")
 	c.Bound("token strings: every sequence of N=%d arbitrary int64 token codes (any int, including non-tokens, -1 = end of input) with arbitrary int64 values; %d corpus grammars x %d Go variants", N, len(specs), len(variants))
-	c.Outside = append(c.Outside, "inputs longer than N tokens", "grammars outside the corpus", "the user's GetToken (replaced by an array reader)", "TypeScript variant (tsmini not built)")
+	c.Outside = append(c.Outside, "inputs longer than N tokens", "grammars outside the corpus", "the user's GetToken (replaced by an array reader)", "TypeScript: JavaScript numbers are modelled as 64-bit integers (values beyond 2^53 and NaN arithmetic are outside the claim)")
 	c.Assumptions = append(c.Assumptions, "reference recognisers (Earley, derivation replay, attribute evaluation) in harness/gen/ref.go.txt are correct", "go/ssa semantics as implemented by gosym; append growth policy irrelevant to the drivers")
 	c.Explanation = fmt.Sprintf("%s (Mode G): the parser source emitted by the current tree is loaded with go/packages, lowered to go/ssa and executed symbolically by gosym; every feasible path of Parser() over %d unconstrained token codes and values is explored, the property is asserted at the end of each path and decided by Z3.", tag, N)
 	type jobT struct {
@@ -113,6 +113,22 @@ func gParse(c *Ctx, mode int, tag string) {
 			job.Tweak = nil
 			c.RunSym(job)
 			c.MarkDistinct(j.s.Name + "/" + j.v)
+		}()
+	}
+	// the TypeScript variant, executed by tsmini on the same term/solver layer
+	for _, s := range specs {
+		s := s
+		wg.Add(1)
+		sem <- struct{}{}
+		go func() {
+			defer wg.Done()
+			defer func() { <-sem }()
+			m := mode
+			if s.HasTag("lalr1") {
+				m |= modeLALR
+			}
+			c.tsParseJob(g.Eng, s, g.TSPath(s.Name), N, m, tag)
+			c.MarkDistinct(s.Name + "/ts")
 		}()
 	}
 	wg.Wait()
